@@ -30,7 +30,8 @@ def plan(tier):
                                  "conj_trans:charged-then-apply", "add:coeffs-differ", "distance:coeffs-differ",
                                  "complex-with-real", "mpdm", "post:canonicalised", "long-chain",
                                  "sector:zero-with-signed-labels", "amplitude:tiny", "amplitude:huge",
-                                 "prefactors:tiny-and-different", "distance:equal-prefactors-not-one"],
+                                 "prefactors:tiny-and-different", "distance:equal-prefactors-not-one",
+                                 "normalize:mps_only", "normalize:mps_and_coeff", "normalize:mps_norm_to_coeff"],
             "required_counters": {"oracle": 2000}}
     if tier == "quick":
         base.update({"ncases": 320, "min_nontrivial": 120})
@@ -186,7 +187,7 @@ def run_case(ctx):
     nontrivial = False
     nsteps = int(rng.integers(4, 13))
     menu = ["add", "sub", "scale", "conj", "copy", "apply", "matmul", "contract", "scalars", "conj_trans", "mpo_mpo",
-            "mpdm", "gauge", "mpo_add"]
+            "mpdm", "gauge", "mpo_add", "normalize"]
     for step in range(nsteps):
         kind = menu[int(rng.integers(0, len(menu)))]
         states_pool = [o for o in pool if o.kind == "mps"]
@@ -281,7 +282,13 @@ def run_case(ctx):
             ctx.check(np.array_equal(np.asarray(res.qntot), want_q), f"{kind}|total-charge-not-added",
                       got=np.asarray(res.qntot), want=want_q, operator_trace=o.trace[-3:])
             compare(ctx, a, f"{kind}|operand-changed")
-            compare(ctx, new, kind, scale=scale)
+            # the canonicalisation inside contract / apply(canonicalise=True) works on the operand's REPRESENTATION: a sum of
+            # states whose tiny prefactors were folded into different sites has tensors of order one for a vector of 1e-9,
+            # and its QR loses those digits (rounding floor of the operand times the norms of the operator tensors)
+            p_o = 1.0
+            for i in range(o.mp.site_num):
+                p_o *= max(float(np.linalg.norm(np.asarray(o.mp[i].array))), 1e-300)
+            compare(ctx, new, kind, scale=max(scale, 1e10 * rep_floor(a.mp) * p_o))
         elif kind == "scalars":
             same = [o for o in states_pool if np.array_equal(o.mp.qntot, a.mp.qntot)]
             b = same[int(rng.integers(0, len(same)))]
@@ -420,6 +427,40 @@ def run_case(ctx):
                         if rng.random() < 0.7:
                             post_check(ctx, nd, "MpDm.apply")
             continue
+        elif kind == "normalize":
+            # the three documented ways to split the norm between the tensors and the prefactor
+            nk = ["mps_only", "mps_and_coeff", "mps_norm_to_coeff"][int(rng.integers(0, 3))]
+            cp = a.mp.copy()
+            c0 = complex(cp.coeff)
+            n0 = float(np.linalg.norm(a.ref))
+            if n0 <= 1e-200 or abs(c0) <= 1e-200:
+                continue
+            if rep_floor(a.mp) / (1e4 * np.finfo(float).eps) / n0 > 1e6:
+                # (as for the scalars below: the norm is a contraction of the representation, and tensors of order one that
+                # represent a vector smaller by > 1e6 - a harness-made difference of nearly equal states, or a gauge that mixes
+                # summands of very different weight - leave it no digits)
+                ctx.cls("ill-conditioned-representation:normalize-skipped")
+                continue
+            res = ctx.lib(cp.normalize, nk, what="normalize|" + nk)
+            ctx.cls("normalize:" + nk)
+            ctx.check(res is cp, "normalize|does-not-return-self", kind=nk)
+            if nk == "mps_only":
+                ref = a.ref * (abs(c0) / n0)
+                want_c = c0
+            elif nk == "mps_and_coeff":
+                ref = a.ref / n0
+                want_c = c0 / abs(c0)
+            else:
+                ref = a.ref.copy()
+                want_c = c0 * (n0 / abs(c0))
+            new = Obj(cp, ref, "mps", a.trace[-3:] + [f"normalize({nk})"])
+            ctx.count("oracle")
+            ctx.check(abs(complex(cp.coeff) - want_c) <= (1e-9 + rep_floor(a.mp) / n0) * abs(want_c), "normalize|prefactor-differs-from-documented|" + nk,
+                      got=complex(cp.coeff), want=want_c)
+            # (the norm is computed from the representation: its rounding floor, rescaled like the vector, enters the tolerance)
+            nref = max(float(np.linalg.norm(ref)), 1e-300)
+            compare(ctx, new, "normalize|" + nk, scale=max(nref, 1e10 * rep_floor(a.mp) * nref / n0))
+            compare(ctx, a, "normalize|source-of-the-copy-changed")
         elif kind == "gauge":
             f = ctx.lib(states.apply_gauge, rng, a.mp, None, a.trace, what="gauge")
             a.ref = a.ref * f
